@@ -21,7 +21,7 @@ from vlib.cmp import as_array, assert_shape, finite
 
 PROPERTY = "C05"
 RULE = ("Hypothesis: matrices (1-6)x(1-6) incl. 1xN / Nx1 of classes small-int, dyadic, seeded Gaussian, seeded int, "
-        "rank-deficient (product of thin factors, real or integer), prescribed spectrum with repeats / zeros / tiny values "
+        "rank-deficient (product of thin factors, real or integer), +-1 matrices (exact sign ties in the singular vectors), prescribed spectrum with repeats / zeros / tiny values "
         "(orthonormal x diag x orthonormal), geometric spectra spanning 2-8 orders of magnitude at sizes up to 12x10 and rank <= 8 "
         "(all methods but symeig; randomized then with n_iter 1-4 and k+n_oversamples >= rank); n_eigenvecs in {None, 1..max(shape)+2}; methods truncated_svd, symeig_svd, "
         "randomized_svd (n_oversamples 0-5, n_iter 0-3, integer random_state from the case), a callable wrapping "
@@ -369,6 +369,12 @@ def _matrix_spec(draw, classes):
     cls = draw(st.sampled_from(classes))
     if cls in ("int", "dyadic", "normal", "seedint", "posint", "uniform", "nonneg", "sparse_nonneg", "allneg"):
         return {"kind": "enc", "sub": cls, "a": draw(gen.arr([m, n], kinds=(cls,)))}
+    if cls == "pm1":
+        # entries +-1 (optionally with zeros): singular vectors whose largest-magnitude entries tie exactly, often with
+        # opposite signs (about half of such matrices) - the input class of the sign-resolution rule
+        vals = draw(st.sampled_from([[-1, 1], [-1, 1], [-1, 0, 1]]))
+        d = draw(st.lists(st.sampled_from(vals), min_size=m * n, max_size=m * n))
+        return {"kind": "enc", "sub": cls, "a": {"s": [m, n], "d": d}}
     if cls == "negmean":
         a = draw(gen.arr([m, n], kinds=("normal",)))
         a["shift"] = -draw(st.sampled_from([0.5, 2.0]))
@@ -398,12 +404,12 @@ def _matrix_spec(draw, classes):
 SIDES = [1, 2, 3, 4, 5, 6, 2, 3, 4, 5]
 GEOM_ROWS = [2, 3, 4, 5, 6, 8, 10, 12]
 GEOM_COLS = [2, 3, 4, 5, 6, 8, 10]
-SIGNED = ("int", "dyadic", "normal", "seedint", "lowrank", "lowrank_int", "spectrum", "spectrum")
+SIGNED = ("int", "dyadic", "normal", "seedint", "lowrank", "lowrank_int", "spectrum", "spectrum", "pm1", "pm1")
 # classes with a wide geometric spectrum are added where the method is accurate to eps*sigma_1 (not symeig_svd:
 # components just above the 1e-6 gap are legitimately accurate to ~eps*sigma_1^2/sigma_k^2 only through the Gram route)
 WITH_GEOM = SIGNED + ("geom", "geom", "geom")
 NN_CLASSES = ("posint", "uniform", "nonneg", "sparse_nonneg", "lowrank_nonneg", "normal", "int", "allneg", "negmean", "lowrank")
-INT_CLASSES = ("int", "seedint", "posint", "lowrank_int")
+INT_CLASSES = ("int", "seedint", "posint", "lowrank_int", "pm1")
 
 
 @st.composite
